@@ -121,7 +121,7 @@ fn viol(rep: &mut Report, case: &Case, f: &PFault, oracle: &str, what: &str, det
 }
 
 fn exec_c<C: GenericConfig<D, F = F>>(case: &Case, rep: &mut Report) {
-    let built = match build::<C>(&case.st) {
+    let mut built = match build::<C>(&case.st) {
         BuildOutcome::Ok(b) => b,
         BuildOutcome::Unsat(s) => {
             rep.skip(&format!("unsat:{s}"));
@@ -254,6 +254,13 @@ fn exec_c<C: GenericConfig<D, F = F>>(case: &Case, rep: &mut Report) {
                 }
             }
         }
+        // Byzantine strategy "row left out of the running sum": a wrong output in the first LookupGate row of a
+        // table while the prover's own bookkeeping (prover_only.lookup_rows) says the lookup rows start one row later
+        for (t, lw) in data.prover_only.lookup_rows.iter().enumerate() {
+            if lw.last_lut_gate > lw.last_lu_gate {
+                plan.push(("strategy.first_lookup_row_left_out_of_running_sum".into(), PFault { cell: Some((tidx(lw.last_lu_gate, LookupGate::wire_ith_looking_out(0)), "plus1".into(), 0)), shift_lookup_rows: Some(t), ..Default::default() }));
+            }
+        }
         if cfg!(feature = "hooks") {
             plan.push(("H1".into(), PFault { knobs: Knobs { z_init: Some(0), ..Default::default() }, ..Default::default() }));
             for j in 0..common.config.num_challenges {
@@ -261,8 +268,31 @@ fn exec_c<C: GenericConfig<D, F = F>>(case: &Case, rep: &mut Report) {
             }
         }
     }
+    let degree_bits = common.degree_bits();
     for (name, f) in &plan {
-        let v = match run_fault(&built, &ctx, &case.st, &case.sched, &case.entropy, f) {
+        let v = match f.shift_lookup_rows {
+            None => run_fault(&built, &ctx, &case.st, &case.sched, &case.entropy, f),
+            Some(t) => {
+                // the statement checker judges the witness against the circuit as built; the prover then runs
+                // with its bookkeeping shifted
+                let plain = PFault { shift_lookup_rows: None, ..f.clone() };
+                let sat = match run_fault(&built, &ctx, &case.st, &case.sched, &case.entropy, &plain) {
+                    Some(v) => v.sat,
+                    None => continue,
+                };
+                if t >= built.data.prover_only.lookup_rows.len() {
+                    continue;
+                }
+                built.data.prover_only.lookup_rows[t].last_lu_gate += 1;
+                let v = run_fault(&built, &ctx, &case.st, &case.sched, &case.entropy, &plain);
+                built.data.prover_only.lookup_rows[t].last_lu_gate -= 1;
+                v.map(|mut v| {
+                    v.sat = sat;
+                    v
+                })
+            }
+        };
+        let v = match v {
             Some(v) => v,
             None => continue,
         };
@@ -280,7 +310,7 @@ fn exec_c<C: GenericConfig<D, F = F>>(case: &Case, rep: &mut Report) {
         }
     }
     rep.sample(json!({"config": built.cfg.class(), "tables": case.st.prog.tables.iter().map(|t| t.len()).collect::<Vec<_>>(),
-        "lookups": case.st.prog.ops.iter().filter(|o| matches!(o, Op::Lookup(..))).count(), "faults": plan.len(), "degree_bits": common.degree_bits()}));
+        "lookups": case.st.prog.ops.iter().filter(|o| matches!(o, Op::Lookup(..))).count(), "faults": plan.len(), "degree_bits": degree_bits}));
 }
 
 pub fn exec(case: &Value, rep: &mut Report) {
